@@ -45,13 +45,17 @@ import (
 // conflicting access pair in the table) carrying the number of reports mapped to it, plus one case per report
 // that matches no table pair (= the translator missed an access).
 //
-// Child: the daemon's activities, in-process, at high rate, on the REAL objects: sensors / curves / fans
-// created and registered like backend.go does (2 hwmon fans, a file fan, a cmd fan; linear, PID and function
-// curves; all fans share sensor s_hw, two fans share the PID curve), real sensor monitors
-// (internal.NewSensorMonitor(...).Run), real controllers (DefaultFanController.Run: prelude incl. the
-// initialisation sequence, then its own RPM-monitor and control-loop actors, restore at the end), the real REST
-// handlers through echo's ServeHTTP (list and item endpoints), the real collectors through
-// prometheus.DefaultGatherer.Gather(), a "third party" rewriting pwm files.  Tick rates 1 ms, sleeps scaled 1/400.
+// Child: the daemon's activities, in-process, at high rate, on the REAL objects.  configuration.CurrentConfig is
+// filled like the loader would (2 sensors, 4 curves incl. a PID and a function curve, 8 fans: 4 hwmon on one fake
+// chip, 3 file, 1 cmd; every way of selecting the control algorithm: default PID x2, explicit pid, deprecated
+// controlLoop block, direct without limit x2, direct with limit x2) and the objects and controllers are created by
+// the REAL start-up glue of backend.go (initializeSensors / initializeCurves / initializeFans /
+// initializeFanControllers through internal.VerifRaceInitialize).  Then, all at once like RunDaemon's run.Group:
+// real sensor monitors (internal.NewSensorMonitor(...).Run), real controllers (DefaultFanController.Run: prelude
+// incl. the initialisation sequence of f_hw1, then its own RPM-monitor and control-loop actors, restore at the
+// end; restarted when the loop ends), the real REST handlers through echo's ServeHTTP (list and item endpoints),
+// the real collectors through prometheus.DefaultGatherer.Gather(), a "third party" rewriting pwm / temperature
+// files, and transient injected device faults (second 60% of the run).  Tick rates 1 ms, sleeps scaled 1/1000.
 
 type raceAccess struct {
 	Kind  string   `json:"kind"`
